@@ -31,7 +31,7 @@ def hsNames : List (String × Msg) :=
 
 /-- inserted records -/
 def insNames : List (String × Msg) :=
-  [("ccs", .ccs), ("badccs", .badCcs), ("appdata", .appData), ("warn", .warningAlert), ("fatal", .fatalAlert),
+  [("ccs", .ccs), ("badccs", .badCcs), ("appdata", .appData), ("emptyapp", .appData), ("warn", .warningAlert), ("fatal", .fatalAlert),
    ("closenotify", .closeNotify), ("badalert", .badAlert), ("empty", .emptyHandshake), ("unkrec", .unknownRecord),
    ("bigrec", .oversizedRecord), ("bigmsg", .oversizedMsg), ("frag", .fragment), ("malformed", .malformed),
    ("badvers", .wrongVersionRecord)]
